@@ -4,6 +4,7 @@ go 1.23
 
 require (
 	github.com/google/wuffs v0.0.0
+	golang.org/x/image v0.24.0
 	pgregory.net/rapid v1.3.0
 )
 
